@@ -64,6 +64,12 @@ def scenario(rng):
         if nstate > 1:
             files[1] = files[1][:-1] + " (export big1) (begin (define (big1 a b) (%s a b))))" % patched
         files.append("Fpl.sld=(define-library (pl) (import (scheme base)) (export plain-big) (begin (define (plain-big a b) (%s a b))))" % patched)
+    # a library-level MACRO in the body of s0 (used by one of its exported procedures): its keyword is private to that body - the
+    # importing program and a library FILE loaded afterwards use the same identifier as an ordinary procedure of their own
+    libmacro = rng.random() < 0.5
+    if libmacro:
+        files[0] = files[0][:-1] + " (export area0) (begin (define-syntax sq (syntax-rules () ((sq a) (* a a)))) (define (area0 r) (sq r))))"
+        files.append("Fld.sld=(define-library (ld) (import (scheme base)) (export bump-sq) (begin (define (sq a) (+ a 1)) (define (bump-sq a) (sq a))))")
     # wrapper libraries wJ importing some state libs (and earlier wrappers), exporting bumpers
     nwrap = rng.randrange(0, 3)
     wrappers = []
@@ -79,16 +85,32 @@ def scenario(rng):
     count = [0] * nstate
     forms, expect = [], []
     imported_direct = [k for k in range(nstate) if rng.random() < 0.8]
-    if patched:
+    if patched or libmacro:
         imported_direct = list(range(nstate))
-    imp = ["(scheme base)"] + ["(s%d)" % k for k in imported_direct] + ["(w%d)" % j for j, _ in wrappers] + (["(pl)"] if patched else [])
+    imp = ["(scheme base)"] + ["(s%d)" % k for k in imported_direct] + ["(w%d)" % j for j, _ in wrappers] + (["(pl)"] if patched else []) + (["(ld)"] if libmacro else [])
     rng.shuffle(imp)
     imp = ["(scheme base)"] + [x for x in imp if x != "(scheme base)"]
+    if libmacro and "(ld)" in imp and "(s0)" in imp and imp.index("(ld)") < imp.index("(s0)"):
+        i, j = imp.index("(ld)"), imp.index("(s0)")
+        imp[i], imp[j] = imp[j], imp[i]          # (ld) is loaded AFTER the library whose body defines the macro
     forms.append("(import %s)" % " ".join(imp)); expect.append("N")
     redefined = set()
+    sq_defined = [False]
     helper_defined = False
     for _ in range(rng.randrange(6, 20)):
         op = rng.random()
+        if libmacro and rng.random() < 0.25:
+            a = rng.randrange(2, 30)
+            which = rng.choice(["area0", "bump-sq", "own-define", "own-call"])
+            if which == "area0":
+                forms.append("(area0 %d)" % a); expect.append("V i:%d" % (a * a))
+            elif which == "bump-sq":
+                forms.append("(bump-sq %d)" % a); expect.append("V i:%d" % (a + 1))
+            elif which == "own-define" or not sq_defined[0]:
+                forms.append("(define (sq a) (+ a 1000))"); expect.append("N"); sq_defined[0] = True
+            else:
+                forms.append("(sq %d)" % a); expect.append("V i:%d" % (a + 1000))
+            continue
         if patched and rng.random() < 0.25:
             a, b = rng.randrange(-50, 300), rng.randrange(-50, 300)
             pyop = max if patched == "max" else min
@@ -182,7 +204,7 @@ def main(tier, seed):
     rep = C.Report(PROP, tier, seed)
     rng = random.Random(seed)
     rep.cov["rule"] = ("random scenarios: 1-2 stateful counter libraries (exports with and without rename, one binding under several external names, specs in any order over one or two export declarations, unexported helper, a "
-                       "procedure that refers to an importer variable; in half of the scenarios one library assigns a name it imported while libraries with the same import declaration use that name), 0-2 wrapper libraries importing them directly or through "
+                       "procedure that refers to an importer variable; in half of the scenarios a library body defines a macro whose keyword the program and a later-loaded library file use as a procedure; in half one library assigns a name it imported while libraries with the same import declaration use that name), 0-2 wrapper libraries importing them directly or through "
                        "another wrapper, an importing program of 6-20 forms that calls, reads, redefines imported names and "
                        "defines colliding names; as files under a program directory; distinct = distinct scenarios")
     ok = C.standard_proof_phase(rep, MODULES, directed_search=lambda r: run(r, tier, rng))
